@@ -261,6 +261,18 @@ func c13Body(c *ev.Ctx) {
 		}
 		c.Sample(sc)
 	}
+	// ---- library-level isolation: two threads run the same pure helpers of the response / hashing
+	// path on different values (no server, no proving: cheap, so preemption bound 2)
+	if c.NViolations() == 0 && !c.Expired() {
+		le, ls, lt, done := libIsolation(c, "isolation|library helpers|", []int{0, 1, 2, 3, 4, 5})
+		execs += le
+		states += ls
+		trans += lt
+		per["library helpers x2 bound=2"] = map[string]any{"executions": le, "states": ls, "complete": done}
+		if !done {
+			allDone = false
+		}
+	}
 	// ---- separate free-running race pass (real net/http, real goroutines, -race) ----
 	if c.NViolations() == 0 {
 		runs, reports, msg := c13RacePass(c)
